@@ -173,6 +173,12 @@ def gen_c01(r, tier):
                 op = {'op': 'detect', 'client': 'A', 'frame': fi, 'cs': name,
                       'opts': gen_detect_opts(r, frames[fi])}
                 op.update(gen_via(r))
+                if op['opts'].get('outpath') and r.chance(0.25):
+                    # something is already at the output path
+                    ops.append({'op': 'stale_output', 'client': 'B',
+                                'path': op['opts']['outpath'],
+                                'junk': r.pick(['junk',
+                                                'Index,n_failures\n0,3\n'])})
             else:
                 # another client working on the same frame object
                 op = {'op': 'detect', 'client': 'B', 'frame': fi,
@@ -180,6 +186,10 @@ def gen_c01(r, tier):
                       'via': 'dict',
                       'opts': {'in_place': r.chance(0.6), 'repair': True,
                                'per_constraint': r.chance(0.5)}}
+                if r.chance(0.4):
+                    # ... leaving its failing records where A writes too
+                    op['opts']['outpath'] = r.pick(['out.csv', 'out.parquet'])
+                    op['opts']['in_place'] = False
             ops.append(op)
     return {'config': {'frames': frames}, 'ops': ops}
 
@@ -212,7 +222,8 @@ def gen_c09(r, tier):
         if r.chance(0.5):
             ops.append({'op': 'noise', 'client': 'A', 'cs': name,
                         'frame': r.randrange(nframes),
-                        'seed': r.getrandbits(32)})
+                        'seed': r.getrandbits(32),
+                        'warnings_as_errors': r.chance(0.3)})
     return {'config': {'frames': frames}, 'ops': ops}
 
 
@@ -648,6 +659,13 @@ def op_detect(ctx, op):
                       'detection on the discovery frame reports %d failing '
                       'constraints / %d failing records: %r\n%s'
                       % (v.failures, nf, bad, df.to_string()[:1200]))
+        elif exists_after:
+            violation(ctx, op, 'closure-detect-output-file',
+                      'pre-%s/%s' % (pre_state, fmt_of(outpath)),
+                      'detection on the discovery frame found nothing, yet '
+                      'a detection output file (failing records) is at the '
+                      'output path afterwards; before the call the path was '
+                      '%s' % pre_state)
         return
     if ctx.prop == 'C06':
         check_c06(ctx, op, rec, spec, df, before_df, kw, v, det, outcome,
@@ -1286,22 +1304,30 @@ def op_noise(ctx, op):
     for fname, f in d1.get('fields', {}).items():
         if r.chance(0.7):
             added[fname] = gcs.add_noise(r, f)
-    try:
-        v0 = verify_df(df.copy(deep=True), d0)
-        m0 = verdict_map(v0)
-    except WatchdogTimeout:
-        raise
-    except Exception:
-        ctx.stats['abstain']['baseline_verify_raises'] += 1
-        return
-    try:
-        v1 = verify_df(df.copy(deep=True), d1)
-        m1 = verdict_map(v1)
-        outcome = 'ok'
-    except WatchdogTimeout:
-        raise
-    except Exception as e:
-        outcome, exc = 'exc', e
+    import warnings
+    strict = bool(op.get('warnings_as_errors'))
+    with warnings.catch_warnings():
+        if strict:
+            # the process runs with warnings escalated to errors
+            # (python -W error, pytest filterwarnings=error)
+            warnings.simplefilter('error')
+            ctx.stats['faults']['warnings_escalated_to_errors'] += 1
+        try:
+            v0 = verify_df(df.copy(deep=True), d0)
+            m0 = verdict_map(v0)
+        except WatchdogTimeout:
+            raise
+        except Exception:
+            ctx.stats['abstain']['baseline_verify_raises'] += 1
+            return
+        try:
+            v1 = verify_df(df.copy(deep=True), d1)
+            m1 = verdict_map(v1)
+            outcome = 'ok'
+        except WatchdogTimeout:
+            raise
+        except Exception as e:
+            outcome, exc = 'exc', e
     ctx.events.append({'i': op['i'], 'op': 'noise', 'outcome': outcome})
     ctx.shape.append('N' + outcome[0])
     ctx.nontrivial = True
@@ -1313,7 +1339,8 @@ def op_noise(ctx, op):
                           for ks in added.values() for k in ks})
     if outcome == 'exc':
         violation(ctx, op, 'noise-raises',
-                  '%s/%s' % (exc_tag(exc), '+'.join(kinds_added)),
+                  '%s/%s%s' % (exc_tag(exc), '+'.join(kinds_added),
+                               '/warnings-as-errors' if strict else ''),
                   'adding ignorable entries %r made verification raise %r'
                   % (added, exc))
         return
